@@ -18,7 +18,7 @@ Traces == JsonDeserialize(IOEnv.TRACE_FILE)
 Has(f, x) == x \in DOMAIN f
 
 IsMut(a) == a.a \in {"MutateField", "MutateConst", "MutateEnumerator", "AddDots"}
-ItemOf(a) == IF a.what = "su" THEN <<"su", <<a.item[1], a.item[2]>>>> ELSE <<"k", a.item>>
+ItemOf(a) == IF a.what = "su" THEN <<"su", <<a.item[1], a.item[2]>>>> ELSE <<a.what, a.item>>
 
 \* st = [ev, c, fl, bad]
 RECURSIVE RunApi(_, _, _)
@@ -118,12 +118,11 @@ Verdict(r) ==
       enClass(x) == IF IdealEnumerator(ev, c, x[1], x[2]) = "error" /\ o.k[enName(x)] = c.en[x[1]].vals[x[2]]
                     THEN unchecked ELSE ""
       \* ---- constants and enumerators as array lengths in type strings: ffi.typeof("char[K]") etc.
-      zeroClass == "const-as-array-length:mismatch-with-C-value-0"
       isErr(x) == Len(x) >= 6 /\ SubSeq(x, 1, 6) = "error:"
       lenBad(exp, got) == \/ exp = <<"error">> /\ ~isErr(got)
                           \/ exp[1] = "ok" /\ got # exp[2]
       vLen == {n \in DOMAIN ev.kc : Has(o.alen, n) /\ lenBad(IdealLen(ev, c, fl, n), o.alen[n])}
-      lenClass(n) == IF LenZeroClass(ev, c, fl, n) /\ o.alen[n] = "0" THEN zeroClass ELSE ""
+      lenClass(n) == ""          \* no documented class (the C-value-0 case was repaired in /repo 8c4f132)
       vEnLen == {x \in enItems : Has(o.alen, enName(x)) /\ lenBad(IdealEnLen(ev, c, x[1], x[2]), o.alen[enName(x)])}
       enLenClass(x) == IF IdealEnumerator(ev, c, x[1], x[2]) = "error" /\ o.alen[enName(x)] = c.en[x[1]].vals[x[2]]
                        THEN unchecked ELSE ""
